@@ -25,6 +25,19 @@ fn presult(bytes: &[u8]) -> (String, Option<Vec<Op>>) {
     ];
     let key = |r: &std::thread::Result<Result<Vec<Op>, asm::FromBytesError>>| match r { Ok(Ok(ops)) => format!("ok {:?}", ops), Ok(Err(e)) => format!("err {:?}", e), Err(_) => "panic".to_string() };
     if others.iter().any(|o| key(o) != key(&r)) { return ("PRPanic (* the result depends on the kind of byte iterator *)".into(), None); }
+    // the discriminant of the generated (repr(u8)) opcode enums must be the declared opcode byte as well
+    if let Ok(Ok(ops)) = &r {
+        for op in ops {
+            let oc = op.to_opcode();
+            let declared: u8 = oc.into();
+            let cast: u8 = match oc {
+                asm::Opcode::Access(x) => x as u8, asm::Opcode::Alu(x) => x as u8, asm::Opcode::Compute(x) => x as u8, asm::Opcode::Crypto(x) => x as u8,
+                asm::Opcode::Memory(x) => x as u8, asm::Opcode::ParentMemory(x) => x as u8, asm::Opcode::Pred(x) => x as u8, asm::Opcode::Stack(x) => x as u8,
+                asm::Opcode::StateRead(x) => x as u8, asm::Opcode::TotalControlFlow(x) => x as u8,
+            };
+            if cast != declared { return ("PRPanic (* `as u8` of the opcode enum differs from the declared opcode byte *)".into(), None); }
+        }
+    }
     match r {
         Ok(Ok(ops)) => (format!("(PROk {})", coq_ops(&ops)), Some(ops)),
         Ok(Err(asm::FromBytesError::InvalidOpcode(e))) => (format!("(PRInvalid {})", e.0), None),
@@ -257,7 +270,18 @@ fn mapped_case(bytes: &[u8]) -> (String, serde_json::Value) {
         Err(_) => (false, "PRPanic".into(), vec![], vec![], vec![]),
     };
     let (fib, fii) = match &ops {
-        Some(ops) => { let m: essential_vm::BytecodeMapped = ops.iter().cloned().collect(); (m.bytecode().to_vec(), m.op_indices().iter().map(|i| *i as i64).collect::<Vec<i64>>()) }
+        Some(ops) => {
+            let m: essential_vm::BytecodeMapped = ops.iter().cloned().collect();
+            // the same operations through iterators whose size hints are loose (no lower bound, a huge upper bound)
+            let (o2, o3) = (ops.clone(), ops.clone());
+            let loose = [
+                catch_unwind(move || (0..usize::MAX).map_while(|i| o2.get(i).cloned()).collect::<essential_vm::BytecodeMapped>()),
+                catch_unwind(move || o3.into_iter().filter(|_| true).collect::<essential_vm::BytecodeMapped>()),
+            ];
+            let same = loose.iter().all(|l| matches!(l, Ok(x) if x.bytecode() == m.bytecode() && x.op_indices() == m.op_indices()));
+            if same { (m.bytecode().to_vec(), m.op_indices().iter().map(|i| *i as i64).collect::<Vec<i64>>()) }
+            else { (vec![0xEE], vec![-1]) }      // building depends on the kind of iterator (or panics): flagged by both evaluators
+        }
         None => (vec![], vec![]),
     };
     (format!("Build_mapped_case {} {} {} {} {} {} {} {} {}", blist(bytes), p, coq_bool(ok), err, zlist(indices.iter().copied()),
